@@ -276,6 +276,84 @@ func c18(r *rep.Run) {
 			}
 		}
 	}
+	// compositions: the boolean folds nested in one another (every ordered pair
+	// of and/or/xor spellings, either operand position, optionally under not),
+	// every boolean assignment, operands written as literals and as variables,
+	// both option sets: each operator is the fold of ITS OWN operands, nesting
+	// never merges one operator's operands into another's
+	{
+		h := hs[0]
+		var bnames []string
+		for _, n := range names {
+			if c := ref.Alias[n]; c == "and" || c == "or" || c == "xor" {
+				bnames = append(bnames, n)
+			}
+		}
+		var n int64
+		apply := func(name string, ops ...interface{}) interface{} {
+			v, err := ref.Builtin(name, ops)
+			if err != nil {
+				panic("c18: oracle fails on booleans: " + name)
+			}
+			return v
+		}
+		for _, o1 := range bnames {
+			for _, o2 := range bnames {
+				for shape := 0; shape < 6; shape++ {
+					for bits := 0; bits < 16; bits++ {
+						a, b, c, dd := bits&1 != 0, bits&2 != 0, bits&4 != 0, bits&8 != 0
+						if shape < 4 && dd {
+							continue
+						}
+						for form := 0; form < 2; form++ {
+							lit := func(k int, v bool) string {
+								if form == 0 {
+									return fmt.Sprint(v)
+								}
+								return fmt.Sprintf("v%d", k)
+							}
+							A, B_, C, D := lit(0, a), lit(1, b), lit(2, c), lit(3, dd)
+							var src string
+							var want interface{}
+							switch shape {
+							case 0:
+								src, want = sprintf("(%s (%s %s %s) %s)", o1, o2, A, B_, C), apply(o1, apply(o2, a, b), c)
+							case 1:
+								src, want = sprintf("(%s %s (%s %s %s))", o1, A, o2, B_, C), apply(o1, a, apply(o2, b, c))
+							case 2:
+								src, want = sprintf("(%s (not (%s %s %s)) %s)", o1, o2, A, B_, C), apply(o1, apply("not", apply(o2, a, b)), c)
+							case 3:
+								src, want = sprintf("(%s %s (%s %s %s) %s)", o1, A, o2, B_, C, A), apply(o1, a, apply(o2, b, c), a)
+							case 4:
+								src, want = sprintf("(%s (%s %s %s) (%s %s %s))", o1, o2, A, B_, o2, C, D), apply(o1, apply(o2, a, b), apply(o2, c, dd))
+							case 5:
+								src, want = sprintf("(%s (%s %s %s %s) %s)", o1, o2, A, B_, C, D), apply(o1, apply(o2, a, b, c), dd)
+							}
+							vars := []term.VarDecl{{Name: "v0", Ty: term.TB}, {Name: "v1", Ty: term.TB}, {Name: "v2", Ty: term.TB}, {Name: "v3", Ty: term.TB}}
+							for _, o := range opts {
+								e, err := h.Compile(h.NewConfig(vars, o), src, 0)
+								n++
+								if err != nil {
+									r.Violate("algebra", "compose-compile"+o1+o2, sprintf("%s does not compile: %v", src, err), map[string]interface{}{"source": src, "config": o.String()})
+									continue
+								}
+								f := drive.NewFetcher(h, vars, o)
+								f.Vals[0], f.Vals[1], f.Vals[2], f.Vals[3] = a, b, c, dd
+								h.Reset()
+								got := h.Eval(e, f)
+								if !drive.SameOutcome(got, drive.Out{Val: want}) {
+									r.Violate("algebra", "compose"+o1+o2+fmt.Sprint(shape), sprintf("%s with v0..v3 = %v %v %v %v under %s = %s, the folds give %v", src, a, b, c, dd, o, got, want),
+										map[string]interface{}{"source": src, "config": o.String(), "values": []bool{a, b, c, dd}})
+								}
+							}
+						}
+					}
+				}
+			}
+		}
+		atomic.AddInt64(&evals, n)
+		r.Cov["nested_boolean_fold_evaluations"] = n
+	}
 	// look-alike operands: for every name x arity 1..3, every tuple over values
 	// that PRINT alike but differ in type (1 / "1", true / "true", 0 / "0" /
 	// false), compiled one after the other in this process in both orders
